@@ -81,12 +81,14 @@ SPEC = {
         "doc": "C04_cache_transparent / C04_get_spec / C04_get_total",
         "corpus": "C04_cache_transparent / C04_get_spec / C04_get_total",
         "build-panic": "C04_get_total",
+        "worker-fatal": "C04_get_total / C04_every_history_returns_computed (the process died while styles were built or read)",
+        "worker-hang": "C04_get_total (termination)",
         "tables": "tie of Generated/PropTables.v (C04_property_tables_spec, C04_unit_table_correct, C04_font_tables_spec)",
     },
     "rule": "SplitMix64-seeded documents (random element tree depth <= 5, UA stylesheet, style attributes / type rules / pseudo-element rules / @page rules declaring inherit, initial or validator-accepted explicit values for properties drawn from all of them), then a random history of Get calls and late constructions (page contexts, margin boxes, anonymous styles); one case per document; non-trivial = at least one cascaded declaration; distinct by seed",
 }
 MANIFEST = {
-    "text": "Coq theorems over a state-machine model of ComputedStyle/AnonymousStyle.Get with its per-style cache: every access history returns the cache-free computed value (cache_transparent), which satisfies the CSS Cascade 4 defaulting equations and the CSS Values unit / font-relative rules (get_spec), totality (get_total), exact unit table; tables regenerated from the source on every run; float32 instance of the model compared with /repo on random documents and random access histories",
-    "note": "Trusted: Coq kernel (vm_compute), gen_c04 translator (cross-checked against runtime tables), Go harness + hook html/tree/verif_export_c04.go, F32 rounding model. Partial: computer functions for images/gradients/grid/content/transform, ex/ch and var() are inputs (oracle), only their defaulting/inheritance/caching is checked.",
+    "text": "Coq theorems over a state-machine model of ComputedStyle/AnonymousStyle.Get with its per-style cache and of style construction: every well-formed history of constructions and Gets returns the cache-free computed value (C04_cache_transparent), which satisfies the CSS Cascade 4 section 7 defaulting equations (C04_defaulting_equations, propagated / anonymous variants), totality on well-typed trees incl. root, pseudo-elements, pages, anonymous boxes (C04_get_total; refuted for the code before the fixes), exact unit table, inherited / initial tables equal to the lists transcribed from CSS, em/rem/percent/keyword rules for lengths, font-size, font-weight, border widths, line-height, display/float; tables regenerated from the source text on every run and audited entry by entry; float32 instance of the model compared with /repo on random real documents and random access histories; the typing hypotheses (wt_tree) are evaluated on every document",
+    "note": "Trusted: Coq kernel (vm_compute), gen_c04 translator (cross-checked against runtime tables), Go harness + hook html/tree/verif_export_c04.go, F32 rounding model, the transcription of the CSS inherited list. Partial: computer functions for images/gradients/grid/content/transform, ex/ch units, vertical-align % and var() substitution are inputs (oracle): only their defaulting/inheritance/caching is checked (the tie still runs them: it found the fatal ex/ch recursion).",
     "technique": "Coq proof over executable state-machine model + source-to-Coq table translator + vm_compute correspondence with the Go implementation",
 }
